@@ -70,7 +70,7 @@ def make_scn(seed, idx, backend, gated=False, displays=False):
     return scn
 
 
-def run_case(scn, mode, k1=None, k2=None, sig=None, count_only=False):
+def run_case(scn, mode, k1=None, k2=None, sig=None, count_only=False, watchdog=None):
     """mode: 'line' | 'sigint'.  Returns dict with delivery info and bad[]."""
     import os
     import signal
@@ -89,7 +89,7 @@ def run_case(scn, mode, k1=None, k2=None, sig=None, count_only=False):
     def before(out):
         state['out'] = out
         signal.signal(signal.SIGALRM, alarm)
-        signal.alarm(30 if scn['backend'] != 'serial' else 15)
+        signal.alarm(watchdog or (30 if scn['backend'] != 'serial' else 15))
         if mode == 'line':
             def on_fire(site):
                 info['fired'].append(site)
@@ -357,6 +357,15 @@ def run_job(rep, job):
     from vlab.dagcommon import scn_summary
     mode, scn, k1, k2, sig = job
     r = run_case(scn, mode, k1=k1, k2=k2, sig=sig)
+    if any(k.startswith('hang@') for k, _ in r.get('bad', [])):
+        # rule out a merely slow (overloaded) host before calling it a hang: same case, 4x the watchdog
+        rep.count('hang_retries')
+        r2 = run_case(scn, mode, k1=k1, k2=k2, sig=sig, watchdog=120)
+        if r2.get('delivered') and not any(k.startswith('hang@') for k, _ in r2['bad']):
+            rep.inconclusive('run returned only under the extended watchdog: slow host, not judged', {'job': [mode, k1, k2, sig]})
+            return
+        if r2.get('delivered'):
+            r = r2
     if r.get('stray'):
         rep.inconclusive('stray KeyboardInterrupt reached the harness outside run_tasks', {'job': [mode, k1, k2, sig]})
         return
@@ -403,6 +412,9 @@ def run_shard(rep):
             rep.count('skipped_for_time')
             done = False
             continue
+        if sum(1 for v in rep.violations if v['key'].startswith('hang@')) >= 2:
+            rep.count('stopped_after_repeated_hangs')
+            break
         run_job(rep, job)
     rep.exhaustive = False
 
